@@ -4432,3 +4432,12 @@ mod test_map {
         assert_eq!(dropped.load(Ordering::SeqCst), 1);
     }
 }
+
+// Verification hook (contract carriers, spec predicates, proof harnesses).
+// Compiled only with `--cfg hashbrown_verif`; the source lives outside this
+// repository and is located through the HASHBROWN_VERIF_DIR environment variable.
+#[cfg(hashbrown_verif)]
+#[allow(missing_docs, dead_code, unused, unexpected_cfgs, clippy::all, clippy::pedantic)]
+pub mod verif {
+    include!(concat!(env!("HASHBROWN_VERIF_DIR"), "/verif.rs"));
+}
